@@ -90,7 +90,38 @@ def parse_problem(text: str, domain):
             pass
 
 
+_AST = {}
+_MODELS = []
+
+
+def _ast(name: str):
+    a = _AST.get(name)
+    if a is None:
+        a = sexpr.read(name)
+        _AST[name] = a
+    return list(a)
+
+
+def _models():
+    if not _MODELS:
+        import pddl_plus_parser.models as m
+        _MODELS.append(m)
+    return _MODELS[0]
+
+
+_NORM = {}
+
+
 def norm(s: str) -> str:
+    r = _NORM.get(s)
+    if r is None:
+        r = _norm(s)
+        if len(_NORM) < 100000:
+            _NORM[s] = r
+    return r
+
+
+def _norm(s: str) -> str:
     """canonical text of a printed atom/fluent: '(r )' -> '(r)'"""
     return sexpr.render(sexpr.read(s))
 
@@ -121,19 +152,19 @@ class World:
 
     def ground_atom(self, name: str):
         """name: '(q o1 o2)' -> the library's GroundedPredicate (built by its problem parser)"""
-        ast = sexpr.read(name)
+        ast = _ast(name)
         lifted = self.domain.predicates[ast[0]]
         return self.pp.parse_grounded_predicate(ast, lifted), lifted.untyped_representation
 
     def ground_fluent(self, name: str):
-        ast = sexpr.read(name)
+        ast = _ast(name)
         return self.pp.parse_grounded_numeric_fluent(ast)
 
     def make_state(self, atoms: Dict[str, object], fluents: Dict[str, object], is_init=False):
         """atoms: name -> bool | SymBool (decided here, in the current path);
         fluents: name -> number | SymReal.  Returns (State, key_of_fluent: name -> state key)."""
         from collections import defaultdict
-        from pddl_plus_parser.models import State
+        State = _models().State
 
         preds = defaultdict(set)
         for name, member in atoms.items():
